@@ -39,7 +39,13 @@ CHECKS = {
             "mutation of shared objects is outside any model and is covered by monitoring: structure, columns, bounds, "
             "str, hash and leaf-payload fingerprints of EVERY pool relation before/after every command). " + CORR,
             "", "DESIGN.md 5/C09"),
-    "C10": (TV, "Lean model + correspondence (proofs in progress)", CORR, "", "DESIGN.md 5/C10"),
+    "C10": (PR, "Lean 4 theorems: attach rules, exec_frame (write-once, evaluate-once) lifted to all histories + correspondence",
+            "Machine-checked for every history of attach_payload and iteration-engine execute calls on any acyclic trees "
+            "sharing any materialization nodes: attach succeeds exactly on a marker without payload (TypeError otherwise); "
+            "a payload once present is the same object at every later point; payloads appear only on materializations of "
+            "executed trees; each materialization's upstream tree is evaluated at most once (ghost log Nodup); a cached "
+            "materialization is handed back with no evaluation. Proof (partial): Processor.process histories and the SQL "
+            "engine's payloads are validated by correspondence + oracle, not proved. " + CORR, "", "DESIGN.md 5/C10"),
     "C11": (TV, "Lean model + correspondence (proofs in progress)", CORR, "", "DESIGN.md 5/C11"),
     "C12": (TV, "Lean model + correspondence incl. evaluation by SQLite (proofs in progress)", CORR, "", "DESIGN.md 5/C12"),
     "C13": (PR, "Lean 4 theorems by mutual structural induction over the nested predicate type + correspondence",
@@ -54,7 +60,13 @@ CHECKS = {
             "a doomed report always carries a message, and with a truthful executor the report is exact. " + CORR,
             "", "DESIGN.md 5/C16"),
     "C17": (TV, "Lean model + correspondence (proofs in progress)", CORR, "", "DESIGN.md 5/C17"),
-    "C18": (TV, "Lean model + correspondence (proofs in progress)", CORR, "", "DESIGN.md 5/C18"),
+    "C18": (PR, "Lean 4 theorems over the lazy-iteration event model (exec_lazy, events_sublist, consumer frames) + correspondence",
+            "Machine-checked for all lazy-only trees, leaf contents, states and consumption depths: execute() changes no "
+            "state (no leaf iteration); iterating the result to any depth starts each leaf occurrence at most once, in "
+            "order; sort/deduplication/materialization consume their input at most once at execute time and return stored "
+            "rows that never iterate a leaf again; rows of repeated iterations are identical. The event model itself "
+            "(CPython generator semantics) is validated against counting payloads on the real library. " + CORR,
+            "", "DESIGN.md 5/C18"),
     "C19": (PR, "Lean 4 theorem (names_distinct) + regenerated name format + real/forced thread races",
             "Machine-checked: names built from fresh fixed-width uuid suffixes are pairwise distinct for ANY counters, "
             "prefixes and interleavings, and begin with the prefix; the f-string is re-read from the source each run. "
